@@ -25,7 +25,7 @@ CHECKS = {
    text="For 8 Bundle compositions (order, repetition, nesting, commutative-only, with Galilei / SE_K_3 members) every operation, Jacobian and Hessian of the bundle is recorded next to the same operation on each part<i>() and TLC checks the tuple / block-diagonal / stacked layout (off-block entries exactly zero); fixed-size vectors, dynamic vectors of size 0..6 and scalars are checked to be the additive group exactly (sum to one rounding, identity maps, I and 0 matrices, dof = size). The spec's own direct-product semantics of Bundles (spec/Groups.tla) is additionally exercised by C01-C05 on the same Bundle types.",
    note="Finite list of Bundle instantiations (compile-time family); operands are stratified samples. Trusted: TLC, JVM, BigRat override, recording code."),
  "C15": dict(design="5/C15", technique="abstract machine in TLA+ carrying the exact value of every register through TLC-generated operation programs (trace validation of every produced element)",
-   text="TLC (-simulate on spec/MachineGen.tla) generates operation programs over a register file; the harness replays them, long homogeneous chains (1e3 quick / 1e5 thorough operations) and fixed-step boost::odeint integrations (euler, rk4, cash-karp54, dopri5, fehlberg78) on the real library; spec/TraceMachine.tla applies the same operations to exact rational matrices and checks finite, unit constraint (n+1)1e-14, canonical SO3 sign and accuracy (n+1)1e-13 for every produced element, with n the tracked history length.",
+   text="TLC (-simulate on spec/MachineGen.tla) generates operation programs over a register file; the harness replays them, long homogeneous chains (1e3 quick / 1e5 thorough operations), one-operation programs in the decades above the small-angle switch and over several turns, lifts SO2->SO3 / SE2->SE3 with projection back (incl. a band next to the half turn) and fixed-step boost::odeint integrations (euler, rk4, cash-karp54, dopri5, fehlberg78) on the real library; spec/TraceMachine.tla applies the same operations to exact rational matrices and checks finite, unit constraint (n+1)1e-14, canonical SO3 sign and accuracy (n+1)1e-13 for every produced element, with n the tracked history length.",
    note="Double precision only (the statement's bounds). Programs, chains and steppers are samples of all histories; history length is tracked per register as defined in the evidence assumptions. Trusted: TLC, JVM, BigRat/RFun overrides, recording code, boost::odeint."),
  "C17": dict(design="5/C17", technique="TLC trace validation of relational events (SE_K_3<1>/SE3, SE_K_3<2>/Galilei, lifts, C1 factorisation, rot_x/y/z, conversions, angle ranges) against documented matrix forms, certified exp and a pi enclosure",
    text="Every relation of the property is recorded as an event on stratified elements/tangents incl. the atan2 cuts and both signs of zero and decided by TLC in exact arithmetic: operation-by-operation equality of SE_K_3<1> with SE3 and of SE_K_3<2> with zero-time Galilei (row/column deletion), lifts as matrix embeddings and homomorphisms inverted by the projections, C1 = scaling * so2, rot_i(t) = ExpM(t hat e_i), quaternion/complex/isometry/Euler round trips with normalisation and canonical sign, and angle()/angle_cw()/angle_ccw() congruent mod 2 pi (sin/cos by series) within their ranges (60-digit pi enclosure, 4 ulp slack).",
